@@ -100,17 +100,33 @@ def relabel(rng, G, kind):
         m = {u: p[i] for i, u in enumerate(nodes)}
     elif kind == "offset":
         m = {u: 100 + 3 * i for i, u in enumerate(nodes)}
+    elif kind == "fresh-tuple":
+        m = {u: (i, "y") for i, u in enumerate(nodes)}
+    elif kind == "fresh-int":
+        m = {u: 10 ** 6 + 17 * i for i, u in enumerate(nodes)}
+    elif kind == "fresh-str":
+        m = {u: "node-%d" % i for i, u in enumerate(nodes)}
     else:
         raise ValueError(kind)
+    # "fresh-*": every mention of a node (add_node, each end of each add_edge) uses a NEWLY CONSTRUCTED object that is equal
+    # to, but not identical with, the other mentions — what reading an edge list from a file produces.  networkx keeps the
+    # first object as the node key and the per-edge objects as neighbour keys, so `w is u` is False where `w == u` is True.
+    fresh = (lambda x: x)
+    if kind == "fresh-tuple":
+        fresh = lambda x: tuple(list(x))
+    elif kind == "fresh-int":
+        fresh = lambda x: int(str(x))
+    elif kind == "fresh-str":
+        fresh = lambda x: "".join(list(x))
     H = G.__class__()
     order = list(nodes)
     rng.shuffle(order)
     for u in order:
-        H.add_node(m[u], **G.nodes[u])
+        H.add_node(fresh(m[u]), **G.nodes[u])
     edges = list(G.edges(data=True))
     rng.shuffle(edges)
     for u, v, d in edges:
         if not G.is_directed() and rng.random() < 0.5:
             u, v = v, u
-        H.add_edge(m[u], m[v], **d)
+        H.add_edge(fresh(m[u]), fresh(m[v]), **d)
     return H, m
